@@ -32,6 +32,11 @@ ASSUMPTIONS = [
     'levels >= 2; Latin-hypercube stratum membership is judged only when the sample is >1e-9 (relative to the '
     'stratum width) away from a stratum boundary',
     'pydoe provides the index designs; the property is about the mapping to values and their application',
+    'Latin-hypercube criteria are requested only where they are defined: "correlation" needs >= 2 factors and '
+    '>= 3 samples (with 2 samples every pairwise correlation is +-1), "maximin"/"centermaximin" need >= 2 samples '
+    '(pairwise distances); pydoe.lhs itself raises (ValueError/UnboundLocalError from an empty reduction) for those '
+    'degenerate sizes before OpenMDAO maps anything - such a rejection is discarded, a design that is '
+    'nevertheless produced is judged',
 ]
 MIN_JUDGED = {'quick': 300, 'thorough': 4000}
 REQUIRED_COUNTERS = ['obs:gen:doe:uniform', 'obs:gen:doe:fullfact', 'obs:gen:doe:lhs', 'obs:gen:doe:pb',
@@ -259,6 +264,34 @@ def _vtag(vars_):
     return '+'.join(t) or 'plain'
 
 
+def lhs_criterion_undefined(g, vars_):
+    """reason when the requested LHS optimisation criterion is undefined for the design size, else None.
+
+    pydoe.lhs (third party) fails in exactly this class: _lhscorrelate takes max over the off-diagonal
+    correlations != 1 (empty for one factor; empty when every correlation of a 2-sample design rounds to +1; NaN
+    for one sample), _lhsmaximin takes min over the pairwise distances (empty for one sample)."""
+    n = nfactors(vars_)
+    s = g['samples'] if g['samples'] is not None else n
+    c = g['criterion']
+    if c in ('correlation', 'corr') and (n < 2 or s < 3):
+        return 'lhs-correlation-criterion-undefined:<2-factors-or-<3-samples'
+    if c in ('maximin', 'm', 'centermaximin', 'cm') and s < 2:
+        return 'lhs-maximin-criterion-undefined:1-sample'
+    return None
+
+
+def raise_site(e):
+    """'<module>.<function>' of the innermost openmdao/pydoe frame of the traceback of e (the mechanism of a raise)."""
+    import traceback
+    site = None
+    for fr in traceback.extract_tb(e.__traceback__):
+        fn = fr.filename.replace(os.sep, '/')
+        for pk in ('/openmdao/', '/pydoe/'):
+            if pk in fn and '/omv/' not in fn:
+                site = '%s.%s' % (os.path.splitext(os.path.basename(fn))[0], fr.name)
+    return site or 'outside-openmdao'
+
+
 def check_design(acc, g, vars_, rows, family, bad):
     """Combinatorial definition of the design `rows` (ncases x nfactors)."""
     kind = g['kind']
@@ -400,14 +433,18 @@ def judge(case, acc):
             if kind == 'gsd':
                 acc.skip('gsd-rejected-configuration')
                 return
-            acc.viol('%s:%s:generator-raises:%s:%s' % (family, kind, type(e).__name__, _vtag(vars_)),
-                     '%s: %s' % (type(e).__name__, str(e)[:200]), case, fp=fp)
+            why = lhs_criterion_undefined(g, vars_) if kind == 'lhs' else None
+            if why:
+                acc.skip(why)
+                return
+            acc.viol('generator-raises:%s@%s:%s:%s' % (type(e).__name__, raise_site(e), family, kind),
+                     '%s: %s [%s]' % (type(e).__name__, str(e)[:200], _vtag(vars_)), case, fp=fp)
             return
         acc.count('obs:gen:%s:%s' % (family, kind))
         try:
             rows = rows_from_cases(cases1, vars_, family)
         except ValueError as e:
-            acc.viol('%s:%s:malformed-case:%s' % (family, kind, _vtag(vars_)), str(e)[:200], case, fp=fp)
+            acc.viol('malformed-case:%s:%s' % (family, kind), '%s [%s]' % (str(e)[:200], _vtag(vars_)), case, fp=fp)
             return
         if kind in ('list', 'csv'):
             if rows.shape != own_rows.shape or np.any(rows != own_rows):
@@ -466,8 +503,8 @@ def judge(case, acc):
             try:
                 p.run_driver()
             except Exception as e:   # noqa
-                acc.viol('%s:%s:run_driver-raises:%s:%s' % (family, kind, type(e).__name__, _vtag(vars_)),
-                         '%s: %s' % (type(e).__name__, str(e)[:200]), case, fp=fp)
+                acc.viol('run_driver-raises:%s@%s:%s:%s' % (type(e).__name__, raise_site(e), family, kind),
+                         '%s: %s [%s]' % (type(e).__name__, str(e)[:200], _vtag(vars_)), case, fp=fp)
                 return
             evals = comp.log[n0:]
             p.cleanup()
